@@ -5,7 +5,7 @@ import "time"
 func init() {
 	props = append(props, prop{
 		ID: "C16", Title: "Deadlines fire on time, never early, and can be renewed or cleared", Level: "exploration",
-		Rule: "phase core: history = one connection of an nbio engine ((tcp|unix) x (LT|ET|ONESHOT) x 1-2 pollers, 100 histories in parallel) running 1-8 random steps of SetReadDeadline/SetWriteDeadline/SetDeadline(now+d, d in 50..400 ms, sometimes already expired), renew later/earlier, clear (zero time), peer traffic (with and without an OnData handler that renews), small application writes, Close(), peer close, two goroutines issuing Set* at once, and calls aimed at the instant the old deadline fires; 12% of the histories put a write deadline on a real backlog (peer paused; then either left to expire, or drained and followed by a small Write, or drained only). Every Set*/Write call is stamped before and after with one monotonic clock, the engine's close callback stamps the notification. Oracles: a timeout close (errors.Is ErrReadTimeout/ErrWriteTimeout) is never observed before the deadline value of the last effect of that direction that returned before it (an effect returning later than old deadline - 30 ms or overlapping the close accepts the older bound too; concurrent calls accept the smaller deadline); after a clear / a Write that found and left an empty backlog that returned >= 30 ms before the deadline no timeout close of that direction at all; error matches the direction; exactly one close notification per connection, watched until every deadline ever set has passed + 300 ms; an armed, not renewed deadline closes the connection by deadline + L + 1 s where L is the lateness of a control time.AfterFunc armed for the same instant (L > 500 ms or a scheduling gap > 250 ms = inconclusive); never-fired = no notification at +5 s and +10 s with control timers on time and the connection still open. phase app: nbhttp engine (IOModNonBlocking, IOModBlocking) with KeepaliveTime 200-500 ms and a websocket.Upgrader with its own KeepaliveTime; raw clients send 0-3 requests (or upgrade + 0-3 masked text frames) and fall silent; the instants at which nbhttp computed now+KeepaliveTime are bracketed by server-side stamps (dial begin / a later accept on the sequential listener; handler end / execute.afterJob; before / after Upgrade) and fed to the same oracle; the client must see EOF/reset no earlier than the bound, by bound + L + 1 s, and never-closed is confirmed at +5 s/+10 s. A history is non-trivial if it contained >= 1 Set*Deadline (app: reached the silent phase) and reached a decided final state (fired in time, survived a trustworthy window, or was closed by app/peer with exactly one notification); distinct by history index",
+		Rule: "phase core: history = one connection of an nbio engine ((tcp|unix) x (LT|ET|ONESHOT) x 1-2 pollers, 100 histories in parallel) running 1-8 random steps of SetReadDeadline/SetWriteDeadline/SetDeadline(now+d, d in 50..400 ms, sometimes already expired), renew later/earlier, clear (zero time), peer traffic (with and without an OnData handler that renews), small application writes, Close(), peer close, two goroutines issuing Set* at once, and calls aimed at the instant the old deadline fires; 12% of the histories put a write deadline on a real backlog (peer paused; then either left to expire, or drained and followed by a small Write, or drained only). Every Set*/Write call is stamped before and after with one monotonic clock, the engine's close callback stamps the notification. Oracles: a timeout close (errors.Is ErrReadTimeout/ErrWriteTimeout) is never observed before the deadline value of the last effect of that direction that returned before it (an effect returning later than old deadline - 30 ms or overlapping the close accepts the older bound too; concurrent calls accept the smaller deadline); after a clear / a Write that found and left an empty backlog that returned >= 30 ms before the deadline no timeout close of that direction at all; error matches the direction; exactly one close notification per connection, watched until every deadline ever set has passed + 300 ms; an armed, not renewed deadline closes the connection by deadline + L + 1 s where L is the lateness of a control time.AfterFunc armed for the same instant (L > 500 ms or a scheduling gap > 250 ms = inconclusive); never-fired = no notification at +5 s and +10 s with control timers on time and the connection still open. phase app: nbhttp engine (IOModNonBlocking, IOModBlocking) with KeepaliveTime 200-500 ms and a websocket.Upgrader with its own KeepaliveTime; raw clients send 0-3 requests (or upgrade + 0-3 masked text frames) and fall silent; the instants at which nbhttp computed now+KeepaliveTime are bracketed by server-side stamps (dial begin / a later accept on the sequential listener; handler end / execute.afterJob; before / after Upgrade) and fed to the same oracle; the client must see EOF/reset no earlier than the bound, by bound + L + 1 s, and never-closed is confirmed at +5 s/+10 s. A history is non-trivial if it contained >= 1 Set*Deadline (app: reached the silent phase) and reached a decided final state (fired in time, survived a trustworthy window, or was closed by app/peer with exactly one notification); distinct by history index Every second dialed history dials with a (far) dial timeout; a close of an established connection with the dial-timeout error is a violation; every fourth application batch runs with Upgrader.KeepaliveTime = 0 (the upgrade clears the deadline: an upgraded connection must not be closed by any timer).",
 		Assumptions: append([]string{
 			"time.AfterFunc/Timer.Reset of the Go runtime never run a timer before its instant; the harness and nbio read the same monotonic clock",
 			"'fires on time' is decided as: within control-timer lateness + 1 s; 'never' as the stuck state at +5 s and +10 s",
